@@ -838,6 +838,9 @@ fn initialize_compressor(
     Ok((compressor, clients))
 }
 
+// "Exec format error": the file has execute permission but is nothing the kernel can start.
+const ENOEXEC: i32 = 8;
+
 async fn schedule_task(
     mut task: CommandTask,
     plan_target: &PlanTarget,
@@ -858,6 +861,16 @@ async fn schedule_task(
                 &plan_target.command_args,
             ) {
                 Ok(child) => Some(child),
+                // errors that are about this file (EACCES, ENOENT of the interpreter, ENOEXEC);
+                // anything else - out of descriptors, processes or memory - is not the command's fault
+                Err(MonorailError::Io(e))
+                    if !matches!(
+                        e.kind(),
+                        io::ErrorKind::PermissionDenied | io::ErrorKind::NotFound
+                    ) && e.raw_os_error() != Some(ENOEXEC) =>
+                {
+                    return Err(MonorailError::Io(e));
+                }
                 Err(e) => {
                     error!(
                         command = *task.command,
